@@ -22,7 +22,8 @@ var (
 	c09Nest   = []int{1, 2, 4, 8, 12, 70}
 	c09Locals = []int{0, 1, 3, 8}
 	c09Shapes = []string{"plain", "call-in-try", "early-return-in-loop", "break-in-loop", "throw-caught-per-iteration", "throw-with-pending-operands", "recursion-through-function-value", "recursion-through-closure-in-list",
-		"throw-in-builtin-argument", "throw-in-method-argument", "throw-in-function-argument"}
+		"throw-in-builtin-argument", "throw-in-method-argument", "throw-in-function-argument",
+		"match-without-default-that-matches-nothing", "if-without-else-not-taken-and-discarded-values"}
 
 	c09CallLims  = []uint{1, 2, 3, 4, 6, 8, 12, 16, 100}
 	c09StackLims = []uint{1, 2, 4, 8, 16, 64, 500}
@@ -87,6 +88,15 @@ func c09Program(d, e, v int, shape string, n int) *hs.Program {
 			inner = hs.ES(hs.CallN("id", hs.CallN("id", hs.CallN("thrower"))))
 		}
 		loopBody = []hs.Stmt{call, hs.LetS("sink", hs.List(hs.I(0))), hs.ES(&hs.Try{Body: hs.Blk(nil, inner), Var: "e", Catch: hs.Blk(nil)})}
+	case "match-without-default-that-matches-nothing":
+		// per iteration one match whose control value matches no arm, one whose arm matches
+		loopBody = []hs.Stmt{call,
+			hs.ES(&hs.Match{X: hs.Bin("+", hs.V("i"), hs.I(1000)), Arms: []hs.MatchArm{{Lits: []hs.Expr{hs.I(1)}, Body: &hs.BlockExpr{B: hs.Blk(nil, hs.Println(hs.S("never")))}}}}),
+			hs.ES(&hs.Match{X: hs.I(1), Arms: []hs.MatchArm{{Lits: []hs.Expr{hs.I(1), hs.I(2)}, Body: &hs.BlockExpr{B: hs.Blk(nil)}}}})}
+	case "if-without-else-not-taken-and-discarded-values":
+		loopBody = []hs.Stmt{call,
+			hs.ES(&hs.If{Cond: hs.Bin("<", hs.V("i"), hs.I(0)), Then: hs.Blk(nil, hs.Println(hs.S("never")))}),
+			hs.ES(hs.Bin("+", hs.V("i"), hs.I(1))), hs.ES(hs.List(hs.V("i"))), hs.ES(&hs.BlockExpr{B: hs.Blk(hs.V("i"))})}
 	case "throw-with-pending-operands":
 		// the exception is raised and caught in the same function while operands of an enclosing
 		// expression are pending on the operand stack
